@@ -803,7 +803,7 @@ class ArraySemantics(T2Case):
             elif k == "d_expr":
                 a, b = getattr(o[1], "f0_a"), getattr(o[1], "f0_b")
                 ctx.prove(f"{tag}/x[expr]-evaluated-over-earlier-fields", ctx.eq(n, _norm(zint(a) * 2 + zint(b))))
-            elif k in self.ZERO:
+            elif k in self.ZERO and not self.prog.align:
                 sz = self.ZERO[k]
                 ctx.prove(f"{tag}/x[]-consumes-elements-and-terminator", ctx.eq(s.pos, _norm(zint(p) + (zint(n) + 1) * sz)))
             elif k in self.EOFK:
